@@ -7,8 +7,10 @@ import (
 	"time"
 
 	"github.com/free5gc/go-gtp5gnl"
+	"github.com/khirono/go-nl"
 
 	"github.com/free5gc/go-upf/internal/gtpv1"
+	"github.com/free5gc/go-upf/internal/report"
 	"github.com/free5gc/go-upf/internal/verif/vh"
 )
 
@@ -27,14 +29,34 @@ var c14w struct {
 	once sync.Once
 	d    *vh.SimDriver
 	g    *vh.GNB
+	col  *c14Collect
 	err  error
 }
+
+// c14Collect stands where the PFCP server stands: it receives what the buffering listener decoded
+type c14Collect struct {
+	mu   sync.Mutex
+	pkts [][]byte
+}
+
+func (c *c14Collect) NotifySessReport(sr report.SessReport) {
+	c.mu.Lock()
+	for _, r := range sr.Reports {
+		if d, ok := r.(report.DLDReport); ok {
+			c.pkts = append(c.pkts, d.BufPkt)
+		}
+	}
+	c.mu.Unlock()
+}
+func (c *c14Collect) PopBufPkt(uint64, uint16) ([]byte, bool) { return nil, false }
 
 func c14Writer(res *vh.Result, ci int, rng *vh.Rng) {
 	c14w.once.Do(func() {
 		c14w.d, c14w.err = vh.NewSimDriver(vh.SimDriverOpts{WG: &sync.WaitGroup{}})
 		if c14w.err == nil {
 			c14w.g, c14w.err = vh.NewGNB(1)
+			c14w.col = &c14Collect{}
+			c14w.d.HandleReport(c14w.col)
 		}
 	})
 	if c14w.err != nil {
@@ -63,12 +85,36 @@ func c14Writer(res *vh.Result, ci int, rng *vh.Rng) {
 		seq = append(seq, p)
 		pay := rng.Bytes(p.Len)
 		pays = append(pays, pay)
+		toWrite := pay
+		if p.Len > 0 && k%2 == 1 {
+			// the way a buffered packet takes: handed up by the kernel in a BUFFER message, decoded by the buffering
+			// listener, kept, and re-injected later - what is written must still be exactly the packet
+			c14w.col.mu.Lock()
+			c14w.col.pkts = nil
+			c14w.col.mu.Unlock()
+			c14w.d.G.VerifBuff().ServeMsg(&nl.Msg{Body: vh.BufferMsg(uint64(1+rng.Intn(5)), uint16(1+rng.Intn(3)), 4, pay)})
+			var got [][]byte
+			for w := 0; w < 2000 && len(got) == 0; w++ {
+				c14w.col.mu.Lock()
+				got = c14w.col.pkts
+				c14w.col.mu.Unlock()
+				if len(got) == 0 {
+					time.Sleep(100 * time.Microsecond) // the hand-over to the handler is asynchronous
+				}
+			}
+			if len(got) != 1 {
+				res.Inconc(fmt.Sprintf("case %d: the buffering listener delivered %d packets for one BUFFER message", ci, len(got)))
+				return
+			}
+			toWrite = got[0]
+			res.Count("writer_datagrams_through_the_buffering_listener", 1)
+		}
 		far := &gtp5gnl.FAR{ID: 1, Param: &gtp5gnl.ForwardParam{Creation: &gtp5gnl.HeaderCreation{Desc: 0x100, TEID: p.TEID, PeerAddr: c14w.g.IP, Port: 2152}}}
 		var qer *gtp5gnl.QER
 		if p.QFI >= 0 {
 			qer = &gtp5gnl.QER{ID: 1, QFI: uint8(p.QFI)}
 		}
-		if err := c14w.d.G.WritePacket(far, qer, pay); err != nil {
+		if err := c14w.d.G.WritePacket(far, qer, toWrite); err != nil {
 			res.Violate(ci, "c14:writer-error", fmt.Sprintf("packet %d (%v): WritePacket: %v", k, p, err), map[string]interface{}{"sequence": seq})
 			return
 		}
